@@ -3,7 +3,7 @@ from .. import scriptprop
 
 ID = "C02"
 GEN = ['Avl.lean']   # regenerated kernels this property's theorems are about (tie 4B)
-RULE = ("random add/remove histories with the shape (cached heights included) and the comparator-call count observed after every operation, "
+RULE = ("random add/remove histories (continued on clones of the tree) with the shape (cached heights included) and the comparator-call count observed after every operation, "
         "plus targeted orders: ascending, descending, zig-zag, delete-min repeatedly, delete-root repeatedly, random bulk delete; sizes to 300 quick / 5000 thorough; "
         "non-trivial = at least 8 adds")
 ASSUMPTIONS = ["wall-clock cost is not observed, only comparator calls", "shape is read through the verif-tagged hook Tree.VerifShape"]
@@ -11,20 +11,24 @@ TRUSTED = ["the real-valued form height <= 1.4405*log2(n+2) is the integer state
 
 
 def random_hist(rng, nops, universe):
-    sc, bag = ["new 0 %d" % rng.randrange(3)], []
+    sc, bag, h = ["new 0 %d" % rng.randrange(3)], [], 0
     for _ in range(nops):
         r = rng.random()
         if r < 0.55 or not bag:
-            v = rng.randrange(universe); sc.append("add 0 %d" % v); bag.append(v)
+            v = rng.randrange(universe); sc.append("add %d %d" % (h, v)); bag.append(v)
         elif r < 0.85:
-            v = rng.choice(bag); sc.append("remove 0 %d" % v); bag.remove(v)
-        elif r < 0.92:
-            sc.append("remove 0 %d" % rng.randrange(universe + 3))
+            v = rng.choice(bag); sc.append("remove %d %d" % (h, v)); bag.remove(v)
+        elif r < 0.91:
+            sc.append("remove %d %d" % (h, rng.randrange(universe + 3)))
             v = int(sc[-1].split()[2])
             if v in bag: bag.remove(v)
+        elif r < 0.94 and len(bag) >= 3:
+            # the history continues on a CLONE: its cached heights must be as exact as the original's
+            sc += ["clone %d %d" % (h, 1 - h), "shape %d" % h]
+            h = 1 - h
         else:
-            sc.append("contains 0 %d" % rng.randrange(universe + 3))
-        sc.append("shape 0")
+            sc.append("contains %d %d" % (h, rng.randrange(universe + 3)))
+        sc.append("shape %d" % h)
     return sc
 
 
@@ -44,6 +48,10 @@ def targeted(rng, kind, n, every):
         sc.append("add 0 %d" % v)
         if i % every == 0: sc.append("shape 0")
     sc.append("shape 0")
+    h = 0
+    if rng.random() < 0.5:
+        sc += ["clone 0 1", "shape 1", "shape 0"]   # the removals go to a clone
+        h = 1
     present = sorted(order)
     mode = rng.choice(["min", "max", "mid", "random"])
     i = 0
@@ -52,10 +60,10 @@ def targeted(rng, kind, n, every):
         elif mode == "max": v = present.pop()
         elif mode == "mid": v = present.pop(len(present) // 2)
         else: v = present.pop(rng.randrange(len(present)))
-        sc.append("remove 0 %d" % v)
-        if i % every == 0: sc.append("shape 0")
+        sc.append("remove %d %d" % (h, v))
+        if i % every == 0: sc.append("shape %d" % h)
         i += 1
-    sc += ["shape 0", "len 0"]
+    sc += ["shape %d" % h, "len %d" % h]
     return sc
 
 
